@@ -71,7 +71,7 @@ INFO = {
         'stream programs of read/seek/tell over objects in every storage form with sentinel neighbours, stepped in '
         'lock-step with io.BytesIO; optionally a cleaner between steps; non-trivial = program has >= 3 steps incl. a seek; '
         'distinct = distinct (form, program, outcome) digest',
-        2500,
+        12000,
     ),
     'C08': _p(
         'exploration',
